@@ -43,6 +43,15 @@ mut("g15-lastoff-not-advanced", G, "		lastOff = posFile.Offset(gen.End())\n", "	
 mut("g16-flag-guards-code", G, "	if g.sourceMapped {\n		// Annotate with line directives after we're done generating code.", "	if g.sourceMapped {\n		fmt.Fprintf(w, \"_ = %d\\n\", 0)\n		// Annotate with line directives after we're done generating code.", ["G16"])
 mut("g17-swallow-generate-error", "internal/process.go", "		if err := g.GenerateFile(f); err != nil {\n			return err\n		}\n	}\n\n	return nil", "		_ = g.GenerateFile(f)\n	}\n\n	return nil", ["G17"])
 mut("g18-map-typeids", G, "	typeIDs    *typeutil.Map // map[types.Type]int\n	nextTypeID int\n\n	predIDs", "	typeIDs    *typeutil.Map // map[types.Type]int\n	nextTypeID int\n	rawIDs     map[types.Type]int\n\n	predIDs", ["G18"])
+
+E="emitter_stack.go"
+mut("l1-errorrecovered-to-error", E, "		e.TaskErrorRecovered(ctx, err)", "		e.TaskError(ctx, err)", ["L1"], engines="lib")
+mut("l1-flowdone-twice", E, "	for _, e := range fs {\n		e.FlowDone(ctx, d)\n	}", "	for _, e := range fs {\n		e.FlowDone(ctx, d)\n	}\n	for _, e := range fs[1:] {\n		e.FlowDone(ctx, d)\n	}", ["L1"], engines="lib")
+mut("l1-skip-first", E, "	for _, e := range ts {\n		e.TaskSkipped(ctx, err)", "	for _, e := range ts[1:] {\n		e.TaskSkipped(ctx, err)", ["L1"], engines="lib")
+mut("l2-init-only-first", E, "	for _, e := range es {\n		emitters = append(emitters, e.ParallelInit(info))\n	}", "	for _, e := range es[:1] {\n		emitters = append(emitters, e.ParallelInit(info))\n	}", ["L2"], engines="lib")
+mut("l3-drop-nested", E, "				stack = append(stack, s...)", "				stack = append(stack, s[0])", ["L3"], engines="lib")
+mut("l3-single-wrapped-nop", E, "	case 1:\n		return emitters[0]", "	case 1:\n		return NopEmitter()", ["L3"], engines="lib")
+mut("l4-value-unexported", "error.go", "	Value any\n", "	value any\n", ["L4"], engines="lib", edits=[dict(file="error.go", old="pe.Value, pe.Stacktrace", new="pe.value, pe.Stacktrace")])
 # benign
 mut("benign-errf-wording", C, "\"cff.Flow expects at least one function\"", "\"cff.Flow expects one or more functions\"", [], benign=True)
 mut("benign-not-cff-generic-path", "internal/buildtag.go", "		// Special-case: If \"X\" in \"!X\" is \"cff\",\n		// just remove the \"!\".\n		if t, ok := ex.X.(*constraint.TagExpr); ok && t.Tag == \"cff\" {\n			*exp = ex.X\n			return\n		}\n", "", [], benign=True)
